@@ -99,6 +99,12 @@ var monPaths = map[string]string{
 var monEndpoints = []string{"pause", "continue", "state", "tick", "component", "field", "buffers", "progress"}
 
 func monHarness(name string, parallel bool, times []uint64, reqs []string, bounds []int) *harness {
+	return monHarness2(name, parallel, times, reqs, nil, bounds)
+}
+
+// monHarness2 additionally issues reqs2 from a second http goroutine (the real
+// server runs every connection's handler in its own goroutine).
+func monHarness2(name string, parallel bool, times []uint64, reqs, reqs2 []string, bounds []int) *harness {
 	st := &monState{}
 	var comp *monComp
 	return &harness{
@@ -131,29 +137,50 @@ func monHarness(name string, parallel bool, times []uint64, reqs []string, bound
 				_ = eng.Run()
 				st.runDone = true
 			})
-			vsched.Go(func() {
-				vsched.SetName("http")
-				paused := false
-				do := func(ep string) {
-					w := &monWriter{endpoint: ep, hdr: http.Header{}, status: 200}
-					r := &http.Request{Method: "GET", URL: &url.URL{Path: monPaths[ep]}, Header: http.Header{}}
-					vsched.Logf("request %s", ep)
-					mux.ServeHTTP(w, r)
-					st.statuses = append(st.statuses, w.status)
-					if ep == "pause" {
-						paused = true
+			paused := false
+			do := func(ep string) {
+				w := &monWriter{endpoint: ep, hdr: http.Header{}, status: 200}
+				r := &http.Request{Method: "GET", URL: &url.URL{Path: monPaths[ep]}, Header: http.Header{}}
+				vsched.Logf("request %s", ep)
+				mux.ServeHTTP(w, r)
+				st.statuses = append(st.statuses, w.status)
+				if ep == "pause" {
+					paused = true
+				}
+				if ep == "continue" {
+					paused = false
+				}
+			}
+			if reqs2 == nil {
+				vsched.Go(func() {
+					vsched.SetName("http")
+					for _, ep := range reqs {
+						do(ep)
 					}
-					if ep == "continue" {
-						paused = false
+					if paused {
+						do("continue") // "once it is left running"
 					}
-				}
-				for _, ep := range reqs {
-					do(ep)
-				}
-				if paused {
-					do("continue") // "once it is left running"
-				}
-			})
+				})
+				vsched.JoinAll()
+				return
+			}
+			// two clients; whichever order their pause/continue requests were
+			// served in, the simulation is left running at the end
+			httpDone := 0
+			for i, rs := range [][]string{reqs, reqs2} {
+				rs := rs
+				i := i
+				vsched.Go(func() {
+					vsched.SetName(fmt.Sprintf("http%d", i+1))
+					for _, ep := range rs {
+						do(ep)
+					}
+					httpDone++
+					if httpDone == 2 {
+						do("continue")
+					}
+				})
+			}
 			vsched.JoinAll()
 		},
 		Check: func(x *vsched.Exec) (string, []lib.Problem) {
@@ -205,6 +232,21 @@ func c40Harnesses(c *lib.Ctx) []*harness {
 				hs = append(hs, monHarness(fmt.Sprintf("%s-%s-%s", eng, a, b), parallel, times, []string{a, b}, []int{0, 1, lib.Pick(c, 1, 2)}))
 			}
 		}
+		// two concurrent clients, one request each, three preemptions
+		conc := lib.Pick(c, []string{"tick", "component", "pause"}, []string{"tick", "component", "field", "pause", "continue"})
+		if !parallel || c.Thorough() {
+			for _, a := range conc {
+				for _, b := range conc {
+					// quick: the third preemption only where the second client writes
+					// simulation state (tick); thorough: everywhere
+					bounds := []int{0, 1, 2, 3}
+					if !c.Thorough() && b != "tick" {
+						bounds = []int{0, 1, 2}
+					}
+					hs = append(hs, monHarness2(fmt.Sprintf("%s-%s||%s", eng, a, b), parallel, lib.Pick(c, []uint64{1}, times), []string{a}, []string{b}, bounds))
+				}
+			}
+		}
 		if c.Thorough() {
 			for _, a := range []string{"tick", "component", "field", "pause"} {
 				hs = append(hs, monHarness(fmt.Sprintf("%s-3ev-%s", eng, a), parallel, []uint64{1, 1, 2}, []string{a}, []int{0, 1, 2, 3}))
@@ -218,7 +260,7 @@ func init() {
 	lib.Register(&lib.Check{
 		ID:    "C40",
 		Level: "model_checking",
-		Rule: "stateless DFS over goroutine interleavings (iterative preemption bounding) of: a runner goroutine executing Run over 2 events (3 in thorough) whose handlers mutate a component, and an http goroutine issuing, through the real monitor mux and handlers (verif hook VerifLiveMux, instrumented ResponseWriter, no sockets), every sequence of 1 request (bounds 0..2, thorough 3) and every sequence of 2 requests (bounds 0..1, thorough 2) from {pause, continue, state, tick, component, field, buffers, progress}, followed by a final continue when left paused; on SerialEngine and ParallelEngine. " +
+		Rule: "stateless DFS over goroutine interleavings (iterative preemption bounding) of: a runner goroutine executing Run over 2 events (3 in thorough) whose handlers mutate a component, and an http goroutine issuing, through the real monitor mux and handlers (verif hook VerifLiveMux, instrumented ResponseWriter, no sockets), every sequence of 1 request (bounds 0..2, thorough 3) and every sequence of 2 requests (bounds 0..1, thorough 2) from {pause, continue, state, tick, component, field, buffers, progress}, followed by a final continue when left paused; and two http goroutines issuing one request each concurrently (every ordered pair over {tick, component, pause}, one event, bounds 0..2 and bound 3 where the second client is tick, SerialEngine; thorough: over {tick, component, field, pause, continue}, two events, bounds 0..3, on both engines), followed by a final continue; on SerialEngine and ParallelEngine. " +
 			"Oracle per schedule: the tick request's state write and every response write of component/field inspection happen while no event handler is between enter and exit; Run returns; every event handled exactly once; final component state equals the unmonitored run's; no deadlock/panic/5xx.",
 		Assumptions: []string{
 			"sequentially consistent memory; scheduling points at sync/atomic operations of timing and monitoring2, at handler-interior points and at every response write",
